@@ -259,7 +259,7 @@ def worker_main(argv):
             r2 = execute_case(eng, check, small, sandbox)
             det = [x for x in r2.violations if x['signature'] == sig]
             agg['violations'][sig] = {
-                'signature': sig, 'run_index': i, 'run_seed': rs, 'case': small,
+                'signature': sig, 'run_index': i, 'run_seed': rs, 'case': small, 'original_case': case,
                 'original_ops': len(case.get('ops', [])), 'minimised_ops': len(small.get('ops', [])),
                 'minimiser_executions': nexec,
                 'detail': (det[0]['detail'] if det else v['detail']), 'step': (det[0]['step'] if det else v['step']),
